@@ -6,15 +6,15 @@
     [create_signature] / [sign_file] (C04) and by Wsync/Sign.v [sign_file] (C11).  Each
     transcription has its own correspondence check; here they are proved equal.
 
-    Difference found (outside every reachable input): for a block of MORE than 2^32 bytes the
-    C04 transcription computes the factor [uint32(len(block)-1) - uint32(i) + 1] with [N]'s
-    truncated subtraction where Go's [uint32] subtraction wraps around; the C11 transcription
-    ([(len - i) * v] reduced modulo 2^32) is the Go value for every length
-    ([weak_hash_loops_differ_beyond_u32]).  Blocks are at most [blockSize] = 64 KiB long, and a
-    Go slice of 2^32 bytes is never hashed by wharf.  Proofs only. *)
+    Both transcriptions now follow Go's [uint32] arithmetic for EVERY block length.  (History:
+    Sig/Weak.v used to compute the factor [uint32(len(block)-1) - uint32(i) + 1] with [N]'s
+    truncated subtraction where Go's [uint32] subtraction wraps around, so that the two models
+    differed on a block of 2^32 + 1 bytes - the former [weak_hash_models_differ_beyond_u32]; the
+    model was repaired ([Sig.Weak.sub32]) and that example, now false, is deleted.  The factor
+    is [(len - i) mod 2^32] in both models and in Go.)  Proofs only. *)
 From Coq Require Import ZifyBool ZifyNat ZifyN.
 From Wharf Require Import Base.Prelude Base.BlocksLemmas.
-From Wharf Require Sig.Weak Sig.Scan Sig.ScanProofs Sig.Sign Sig.SignProofs Wsync.Weak Wsync.Library Wsync.Sign.
+From Wharf Require Sig.Weak Sig.WeakProofs Sig.Scan Sig.ScanProofs Sig.Sign Sig.SignProofs Wsync.Weak Wsync.Library Wsync.Sign.
 Local Open Scope N_scope.
 
 Module SW := Wharf.Sig.Weak.
@@ -37,29 +37,26 @@ Lemma P32_nz : P32 <> 0.
 Proof. discriminate. Qed.
 
 (** one iteration of the [for i, val := range block] loop: the two transcriptions compute the
-    same [a] and the same [b] as long as [i < len <= 2^32] *)
+    same [a] and the same [b] whenever [i < len] - no upper bound on [len] *)
 Lemma beta_step_a a v : SW.u32 (a + SW.u32 v) = WW.u32 (a + v).
 Proof. rewrite ?su32_mod, ?wu32_mod. apply N.add_mod_idemp_r, P32_nz. Qed.
 
 Lemma beta_step_b len i b v :
-  i < len -> len <= P32 ->
-  SW.u32 (b + SW.u32 (SW.u32 (SW.u32 (SW.u32 (len - 1) - SW.u32 i) + 1) * SW.u32 v)) =
+  i < len ->
+  SW.u32 (b + SW.u32 (SW.u32 (SW.sub32 (SW.u32 (len - 1)) (SW.u32 i) + 1) * SW.u32 v)) =
   WW.u32 (b + WW.u32 ((len - i) * v)).
 Proof.
-  intros Hi Hlen. rewrite ?su32_mod, ?wu32_mod.
-  rewrite (N.mod_small (len - 1)) by lia.
-  rewrite (N.mod_small i) by lia.
-  rewrite (N.mod_small (len - 1 - i)) by lia.
-  replace (len - 1 - i + 1) with (len - i) by lia.
+  intros Hi. rewrite (WeakProofs.beta_factor len i Hi). change WeakProofs.M32 with P32.
+  rewrite ?su32_mod, ?wu32_mod.
   rewrite N.mul_mod_idemp_l, N.mul_mod_idemp_r by apply P32_nz.
   reflexivity.
 Qed.
 
 Lemma beta_loops_agree (l : list N) : forall len i a b,
-  i + N.of_nat (length l) = len -> len <= P32 ->
+  i + N.of_nat (length l) = len ->
   SW.beta_loop len i a b l = WW.bhash_loop len i l a b.
 Proof.
-  induction l as [|v r IH]; intros len i a b Hi Hlen; [reflexivity|].
+  induction l as [|v r IH]; intros len i a b Hi; [reflexivity|].
   cbn [SW.beta_loop WW.bhash_loop]. cbn [length] in Hi.
   rewrite beta_step_a, beta_step_b by lia.
   apply IH; lia.
@@ -71,17 +68,15 @@ Proof.
   apply N.mod_lt. discriminate.
 Qed.
 
-(** βhash: the C04 transcription equals the C11 transcription on every block of at most 2^32
-    bytes - in particular on every block of at most [blockSize] bytes.  No hypothesis on the
-    byte values. *)
+(** βhash: the C04 transcription equals the C11 transcription on EVERY block.  No hypothesis on
+    the length of the block nor on the byte values. *)
 Theorem weak_hash_models_agree_lemma (block : list N) :
-  N.of_nat (length block) <= 4294967296 ->
   SW.beta_hash block = WW.weak_of block /\
   WW.bhash block = (SW.beta_hash block, SW.low16 (fst (SW.beta_loop (N.of_nat (length block)) 0 0 0 block)),
                     SW.low16 (snd (SW.beta_loop (N.of_nat (length block)) 0 0 0 block))).
 Proof.
-  intros Hlen. unfold SW.beta_hash, WW.weak_of, WW.bhash.
-  rewrite (beta_loops_agree block (N.of_nat (length block)) 0 0 0) by (unfold P32; lia).
+  unfold SW.beta_hash, WW.weak_of, WW.bhash.
+  rewrite (beta_loops_agree block (N.of_nat (length block)) 0 0 0) by lia.
   destruct (WW.bhash_loop (N.of_nat (length block)) 0 block 0 0) as [a b]. cbn [fst snd].
   change (WW.modM a) with (SW.low16 a). change (WW.modM b) with (SW.low16 b).
   change WW.M16 with SW.M16.
@@ -92,73 +87,13 @@ Proof.
   rewrite E. split; reflexivity.
 Qed.
 
-(** the same with the hypothesis every caller can discharge: the block is one the signature
-    code hashes, i.e. not longer than a block size that fits [uint32] *)
-Corollary weak_hash_agree_bounded (bs : N) (block : list N) :
-  bs <= 4294967296 -> N.of_nat (length block) <= bs -> SW.beta_hash block = WW.weak_of block.
-Proof. intros Hbs Hl. apply weak_hash_models_agree_lemma. lia. Qed.
-
-(** the precise boundary: at [len = 2^32 + 1], index 1, the C04 loop multiplies the byte by 1
-    ([uint32(len-1) = 0], and [0 - 1] is 0 in [N]) where Go - and the C11 loop - multiply by
-    [(2^32 + 1 - 1) mod 2^32 = 0].  (A statement about the loop bodies: a block of 2^32 + 1 bytes
-    cannot be written down.) *)
-Lemma weak_hash_loops_differ_beyond_u32_lemma :
-  SW.beta_loop 4294967297 1 0 0 [1] = (1, 1) /\ WW.bhash_loop 4294967297 1 [1] 0 0 = (1, 0).
+(** the loop bodies at the former point of disagreement, [len = 2^32 + 1], index 1:
+    [uint32(len-1) = 0], [0 - uint32(1)] wraps to 2^32 - 1, [+ 1] wraps back to 0 - both loops
+    multiply the byte by [(2^32 + 1 - 1) mod 2^32 = 0], as Go does.  (A block of 2^32 + 1 bytes
+    cannot be written down; the statement is about one iteration.) *)
+Lemma weak_hash_loops_agree_beyond_u32_example :
+  SW.beta_loop 4294967297 1 0 0 [1] = (1, 0) /\ WW.bhash_loop 4294967297 1 [1] 0 0 = (1, 0).
 Proof. split; vm_compute; reflexivity. Qed.
-
-(** ... and on an actual block: 2^32 + 1 bytes, all zero except the second.  The C04 model says
-    65537, the C11 model (and Go: [uint32(len(block)-1)] is 0 and [0 - 1 + 1] wraps back to 0)
-    says 1.  ([k] stands for 2^32 - 1 zeros; nothing of that size is ever computed.) *)
-Lemma beta_loop_zeros len : forall k i a b, a < P32 -> b < P32 ->
-  SW.beta_loop len i a b (repeat 0 k) = (a, b).
-Proof.
-  induction k as [|k IH]; intros i a b Ha Hb; [reflexivity|].
-  cbn [repeat SW.beta_loop]. rewrite !su32_mod. change (0 mod P32) with 0.
-  rewrite N.mul_0_r. change (0 mod P32) with 0. rewrite !N.add_0_r, (N.mod_small a), (N.mod_small b) by assumption.
-  apply IH; assumption.
-Qed.
-
-Lemma bhash_loop_zeros len : forall k i a b, a < P32 -> b < P32 ->
-  WW.bhash_loop len i (repeat 0 k) a b = (a, b).
-Proof.
-  induction k as [|k IH]; intros i a b Ha Hb; [reflexivity|].
-  cbn [repeat WW.bhash_loop]. rewrite !wu32_mod. rewrite N.mul_0_r. change (0 mod P32) with 0.
-  rewrite !N.add_0_r, (N.mod_small a), (N.mod_small b) by assumption.
-  apply IH; assumption.
-Qed.
-
-Lemma weak_hash_models_differ_beyond_u32_at (k : nat) :
-  N.of_nat k = 4294967295 ->
-  SW.beta_hash (0 :: 1 :: repeat 0 k) = 65537 /\ WW.weak_of (0 :: 1 :: repeat 0 k) = 1.
-Proof.
-  intros Hk.
-  assert (Hlen : N.of_nat (length (0 :: 1 :: repeat 0 k)) = 4294967297).
-  { cbn [length]. rewrite repeat_length. lia. }
-  unfold SW.beta_hash, WW.weak_of, WW.bhash. rewrite Hlen.
-  cbn [SW.beta_loop WW.bhash_loop].
-  change (SW.u32 (0 + SW.u32 0)) with 0.
-  change (SW.u32 (0 + SW.u32 (SW.u32 (SW.u32 (SW.u32 (4294967297 - 1) - SW.u32 0) + 1) * SW.u32 0))) with 0.
-  change (SW.u32 (0 + SW.u32 1)) with 1.
-  change (SW.u32 (0 + SW.u32 (SW.u32 (SW.u32 (SW.u32 (4294967297 - 1) - SW.u32 (0 + 1)) + 1) * SW.u32 1))) with 1.
-  change (WW.u32 (0 + 0)) with 0.
-  change (WW.u32 (0 + WW.u32 ((4294967297 - 0) * 0))) with 0.
-  change (WW.u32 (0 + 1)) with 1.
-  change (WW.u32 (0 + WW.u32 ((4294967297 - (0 + 1)) * 1))) with 0.
-  rewrite beta_loop_zeros, bhash_loop_zeros by reflexivity.
-  split; reflexivity.
-Qed.
-
-Lemma nat_of_u32_max : exists k : nat, N.of_nat k = 4294967295.
-Proof. exists (N.to_nat 4294967295). apply N2Nat.id. Qed.
-
-Theorem weak_hash_models_differ_beyond_u32_lemma :
-  exists block : list N, N.of_nat (length block) = 4294967297 /\ SW.beta_hash block = 65537 /\ WW.weak_of block = 1.
-Proof.
-  destruct nat_of_u32_max as [k Hk].
-  exists (0 :: 1 :: repeat 0 k).
-  split; [|apply weak_hash_models_differ_beyond_u32_at; exact Hk].
-  cbn [length]. rewrite repeat_length. lia.
-Qed.
 
 (* ------------------------------------------------------------------ pair 2: CreateSignature *)
 
@@ -195,24 +130,20 @@ Section SignAgree.
   Variable H : Type.
   Variable strong : list N -> H.
   Variable bs : N.
-  Hypothesis bs_u32 : bs <= 4294967296.   (* ctx.blockSize is 64 KiB; [uint32(len(block)-1)] must not truncate *)
 
   Lemma hash_block_agrees f i (b : list N) :
-    N.of_nat (length b) <= bs ->
     bh_of_ent (WSg.hash_block strong bs f i b) = SS.hash_block bs SW.beta_hash strong f i b.
   Proof.
-    intros Hl. unfold WSg.hash_block, SS.hash_block, bh_of_ent. cbn.
-    rewrite <- (weak_hash_agree_bounded bs b bs_u32 Hl). reflexivity.
+    unfold WSg.hash_block, SS.hash_block, bh_of_ent. cbn.
+    rewrite (proj1 (weak_hash_models_agree_lemma b)). reflexivity.
   Qed.
 
   Lemma hash_blocks_agree f : forall (bl : list (list N)) i,
-    (forall b, In b bl -> N.of_nat (length b) <= bs) ->
     map bh_of_ent (WSg.sign_blocks strong bs f i bl) = SS.hash_blocks bs SW.beta_hash strong f i bl.
   Proof.
-    induction bl as [|b r IH]; intros i Hall; [reflexivity|].
+    induction bl as [|b r IH]; intros i; [reflexivity|].
     cbn [WSg.sign_blocks SS.hash_blocks map].
-    rewrite hash_block_agrees by (apply Hall; left; reflexivity).
-    rewrite IH by (intros b' Hb'; apply Hall; right; assumption). reflexivity.
+    rewrite hash_block_agrees, IH. reflexivity.
   Qed.
 
   (** the signature of one file: ShortSize, block indices, the synthetic hash of the empty
@@ -221,15 +152,13 @@ Section SignAgree.
     map bh_of_ent (WSg.sign_file strong bs f content) = SS.sign_file bs SW.beta_hash strong f content.
   Proof.
     unfold WSg.sign_file, SS.sign_file, WSg.file_blocks.
-    assert (Hall : forall b, In b (blocks (N.to_nat bs) content) -> N.of_nat (length b) <= bs).
-    { intros b Hb. apply blocks_len_le in Hb. lia. }
     destruct content as [|x l].
     - change (blocks (N.to_nat bs) (@nil N)) with (@nil (list N)). cbn [WSg.sign_blocks map].
-      rewrite hash_block_agrees by (cbn [length]; lia). reflexivity.
+      rewrite hash_block_agrees. reflexivity.
     - destruct (blocks (N.to_nat bs) (x :: l)) as [|b0 r] eqn:E.
-      + (* only for bs = 0 ... no: a non-empty list always has a first block *)
+      + (* a non-empty list always has a first block *)
         unfold blocks in E. cbn [length blocks_aux] in E. discriminate E.
-      + apply hash_blocks_agree. exact Hall.
+      + apply hash_blocks_agree.
   Qed.
 
   Lemma sign_all_agrees : forall (olds : list (list N)) f,
@@ -243,10 +172,11 @@ End SignAgree.
 (** CreateSignature: C11's [sign_file] is what C04's model of the CODE ([create_signature]: the
     bufio.Scanner loop over ANY chunking of the file whose runs of empty reads stay below the
     scanner's tolerance, [hashBlock] per token, the synthetic empty block) hands to [writeHash];
-    and the whole signature of a container likewise. *)
+    and the whole signature of a container likewise.  (The former hypothesis [bs <= 2^32] was
+    only needed by the weak hash of Sig/Weak.v before its repair.) *)
 Theorem create_signature_models_agree_lemma :
   forall (H : Type) (strong : list N -> H) (bs : N) (maxE : nat),
-    0 < bs -> bs <= 4294967296 ->
+    0 < bs ->
     (forall (fileIndex : N) (chunks : list (list N)) (eofWithLast : bool),
        Sig.ScanProofs.runs_ok maxE maxE chunks ->
        SS.create_signature bs SW.beta_hash strong maxE fileIndex chunks eofWithLast =
@@ -256,10 +186,10 @@ Theorem create_signature_models_agree_lemma :
     (forall (olds : list (list N)),
        map bh_of_ent (WSg.sign_all strong bs 0 olds) = SS.sign_all bs SW.beta_hash strong olds).
 Proof.
-  intros H strong bs maxE Hpos Hu32. split; [|split].
+  intros H strong bs maxE Hpos. split; [|split].
   - intros fileIndex chunks eofl Hr.
     rewrite (@SignProofs.create_signature_spec H bs Hpos SW.beta_hash strong maxE fileIndex chunks eofl Hr).
-    rewrite sign_file_agrees by assumption. reflexivity.
-  - intros. apply sign_file_agrees. assumption.
-  - intros. apply sign_all_agrees. assumption.
+    rewrite sign_file_agrees. reflexivity.
+  - intros. apply sign_file_agrees.
+  - intros. apply sign_all_agrees.
 Qed.
